@@ -4,12 +4,16 @@
    Definitions only.  Everything is total and computable (vm_compute evaluates
    it for the correspondence check).
 
-   1. [run]            AliasedFactory.from_alias (alias.py:58-69), statement by
-                       statement, over an ARBITRARY class graph given by
+   1. [run]            AliasedFactory.from_alias (alias.py), statement by
+                       statement (stack, seen, match, comparison of
+                       _registration_index), over an ARBITRARY class graph given
+                       by [nid] = identity of the class object, [nreg] =
+                       cls._registration_index (set by __init_subclass__),
                        [nsubs] = cls.__subclasses__() and [nal] = cls.aliases.
-   2. [ctree]          class trees (single inheritance): the instance the exact
-                       specification theorem is about; [graph] : association-list
-                       graphs (multiple inheritance) for the general theorems.
+                       [run_old]: the loop before the repair (documentation only).
+   2. [ctree]          class trees (single inheritance, identity = registration
+                       index): the instance used by the registry; [graph] :
+                       association-list graphs (multiple inheritance).
    3. [val]            JSON-expressible values + instances.
    4. [from_arg]       alias_factory_subclass_from_arg (alias.py:90-100) and
                        [construct_with], the part of every registered __init__
@@ -23,14 +27,49 @@ Import ListNotations.
 Local Open Scope string_scope.
 
 (* ------------------------------------------------------------------ *)
-(** * 1. The stack machine of [AliasedFactory.from_alias] *)
+(** * 1. The loop of [AliasedFactory.from_alias] *)
 
 Definition mem_id (c : Z) (l : list Z) : bool := existsb (Z.eqb c) l.
 Definition mem_str (a : string) (l : list string) : bool := existsb (String.eqb a) l.
 
+(* The source this section models (alias.py, class AliasedFactory; pinned by
+   gen/registry.py, which refuses any other text):
+
+       _num_registered: int = 0
+       _registration_index: int = 0
+
+       def __init_subclass__(cls, ** kwargs):
+           super().__init_subclass__( ** kwargs)
+           AliasedFactory._num_registered += 1
+           cls._registration_index = AliasedFactory._num_registered
+
+       def from_alias(cls, alias, *args, ** kwargs):
+           match = None
+           stack = [cls]
+           seen = set()
+           while stack:
+               subclass = stack.pop()
+               if subclass in seen:
+                   continue
+               seen.add(subclass)
+               stack.extend(subclass.__subclasses__())
+               if alias in subclass.aliases and (
+                   match is None
+                   or subclass._registration_index > match._registration_index
+               ):
+                   match = subclass
+           if match is None:
+               raise ValueError(...)
+           return match( *args, ** kwargs)
+
+   __init_subclass__ gives every class created below AliasedFactory (class
+   statement or type(), single or multiple inheritance) the next value of one
+   global counter: [nreg] is injective on distinct classes and a class is
+   registered after each of its bases. *)
 Section Machine.
   Variable N : Type.                   (* class objects *)
-  Variable nid : N -> Z.               (* identity of a class object *)
+  Variable nid : N -> Z.               (* identity of a class object (what `in seen` compares) *)
+  Variable nreg : N -> Z.              (* cls._registration_index *)
   Variable nsubs : N -> list N.        (* cls.__subclasses__(), registration order *)
   Variable nal : N -> list string.     (* cls.aliases (the attribute, i.e. after inheritance) *)
 
@@ -38,28 +77,46 @@ Section Machine.
 
   Inductive outcome := Found (n : N) | NotFound | NoFuel.
 
-  (* One iteration of `while stack:` per unit of fuel.  The Python list `stack`
-     is represented with its END (the side `pop()` takes from) as the HEAD:
-       stack.append(parent); stack.extend(children)
-     leaves children[-1] on top, i.e. the new list is rev children ++ parent :: rest.
-     `pushed_children` is a set of class objects, represented by their identities. *)
-  Fixpoint run (fuel : nat) (stack : list N) (pushed : list Z) (a : string) : outcome :=
+  (* match is None or subclass._registration_index > match._registration_index *)
+  Definition beats (subclass : N) (mtch : option N) : bool :=
+    match mtch with
+    | None => true
+    | Some m => Z.ltb (nreg m) (nreg subclass)
+    end.
+
+  (* One iteration of `while stack:` per unit of fuel (the statements after the
+     loop take the last unit).  The Python list `stack` is represented with its
+     END (the side `pop()` takes from) as the HEAD, so
+       stack.extend(subclass.__subclasses__())
+     puts [rev (nsubs subclass)] in front.  `seen` is a set of class objects,
+     represented by the list of their identities; `match` is [mtch]. *)
+  Fixpoint run (fuel : nat) (stack : list N) (seen : list Z) (mtch : option N)
+           (a : string) : outcome :=
     match fuel with
     | O => NoFuel
     | S f =>
       match stack with
-      | [] => NotFound                                       (* raise ValueError *)
-      | parent :: rest =>                                    (* parent = stack.pop() *)
-        if negb (mem_id (nid parent) pushed)                 (* if parent not in pushed_children *)
-        then run f (rev (nsubs parent) ++ parent :: rest) (nid parent :: pushed) a
-        else if has_alias a parent                           (* elif alias in parent.aliases *)
-             then Found parent                               (*   return parent(...)          *)
-             else run f rest pushed a
+      | [] =>                                                 (* loop ends *)
+        match mtch with
+        | None => NotFound                                    (* if match is None: raise ValueError *)
+        | Some m => Found m                                   (* return match(...) *)
+        end
+      | subclass :: rest =>                                   (* subclass = stack.pop() *)
+        if mem_id (nid subclass) seen                         (* if subclass in seen: *)
+        then run f rest seen mtch a                           (*     continue *)
+        else
+          run f
+              (rev (nsubs subclass) ++ rest)                  (* stack.extend(subclass.__subclasses__()) *)
+              (nid subclass :: seen)                          (* seen.add(subclass) *)
+              (if has_alias a subclass && beats subclass mtch (* if alias in subclass.aliases and (...) *)
+               then Some subclass                             (*     match = subclass *)
+               else mtch)
+              a
       end
     end.
 
   Definition from_alias_run (fuel : nat) (root : N) (a : string) : outcome :=
-    run fuel [root] [] a.
+    run fuel [root] [] None a.
 
   (* reachability through __subclasses__ *)
   Inductive Reach (root : N) : N -> Prop :=
@@ -67,8 +124,32 @@ Section Machine.
   | Reach_step : forall c d, Reach root c -> In d (nsubs c) -> Reach root d.
 
   (* fuel that suffices on a finite universe U of classes *)
-  Definition weight (n : N) : nat := 2 + List.length (nsubs n).
+  Definition weight (n : N) : nat := 1 + List.length (nsubs n).
   Definition fuel_bound (U : list N) : nat := 2 + list_sum (map weight U).
+
+  (* ---- THE LOOP BEFORE THE REPAIR (kept only to document the repaired defect:
+          theorem last_registered_wins_old_loop_refuted; nothing else uses it) ----
+       stack = [cls]; pushed_children = set()
+       while stack:
+           parent = stack.pop()
+           if parent not in pushed_children:
+               children = parent.__subclasses__()
+               stack.append(parent); stack.extend(children); pushed_children.add(parent)
+           elif alias in parent.aliases:
+               return parent(...)
+       raise ValueError(...) *)
+  Fixpoint run_old (fuel : nat) (stack : list N) (pushed : list Z) (a : string) : outcome :=
+    match fuel with
+    | O => NoFuel
+    | S f =>
+      match stack with
+      | [] => NotFound
+      | parent :: rest =>
+        if negb (mem_id (nid parent) pushed)
+        then run_old f (rev (nsubs parent) ++ parent :: rest) (nid parent :: pushed) a
+        else if has_alias a parent then Found parent else run_old f rest pushed a
+      end
+    end.
 End Machine.
 
 Arguments Found {N} n.
@@ -87,23 +168,27 @@ Definition t_subs (t : ctree) : list ctree := let 'Node _ _ ch := t in ch.
 Fixpoint tsize (t : ctree) : nat :=
   match t with Node _ _ ch => S (list_sum (map tsize ch)) end.
 
-(* Specification: the order in which classes are tested for the alias -
-   subclasses before their base class, later registered siblings (with their
-   whole subtree) before earlier ones. *)
+(* The classes of a tree as a list (subclasses before their base class, later
+   registered siblings with their whole subtree before earlier ones). *)
 Fixpoint visit_order (t : ctree) : list ctree :=
   match t with Node _ _ ch => concat (rev (map visit_order ch)) ++ [t] end.
 
 Definition ids (t : ctree) : list Z := map t_id (visit_order t).
 
-Definition spec_from_alias (t : ctree) (a : string) : option ctree :=
-  find (has_alias ctree t_al a) (visit_order t).
-
-(* the machine on a tree *)
-Definition tree_run := run ctree t_id t_subs t_al.
-Definition tree_fuel (t : ctree) : nat := 2 * tsize t + 1.
+(* the loop on a tree: the identity of a class is its registration index
+   (the translator and the harness number classes in registration order) *)
+Definition tree_run := run ctree t_id t_id t_subs t_al.
+Definition tree_fuel (t : ctree) : nat := fuel_bound ctree t_subs (visit_order t).
 
 Definition tree_from_alias (t : ctree) (a : string) : option Z :=
-  match tree_run (tree_fuel t) [t] [] a with
+  match tree_run (tree_fuel t) [t] [] None a with
+  | Found n => Some (t_id n)
+  | _ => None
+  end.
+
+(* the loop before the repair, on a tree (documentation of the repaired defect only) *)
+Definition tree_from_alias_old (t : ctree) (a : string) : option Z :=
+  match run_old ctree t_id t_subs t_al (2 * tsize t + 1) [t] [] a with
   | Found n => Some (t_id n)
   | _ => None
   end.
@@ -135,11 +220,12 @@ Definition g_entry (g : graph) (c : Z) : list string * list Z :=
   end.
 Definition g_al (g : graph) (c : Z) : list string := fst (g_entry g c).
 Definition g_subs (g : graph) (c : Z) : list Z := snd (g_entry g c).
-Definition graph_run (g : graph) := run Z (fun c => c) (g_subs g) (g_al g).
+(* a class is named by its registration index *)
+Definition graph_run (g : graph) := run Z (fun c => c) (fun c => c) (g_subs g) (g_al g).
 Definition graph_fuel (g : graph) : nat := fuel_bound Z (g_subs g) (map fst g).
 
 Definition graph_from_alias (g : graph) (root : Z) (a : string) : option Z :=
-  match graph_run g (graph_fuel g) [root] [] a with
+  match graph_run g (graph_fuel g) [root] [] None a with
   | Found n => Some n
   | _ => None
   end.
@@ -410,7 +496,8 @@ Fixpoint increasing (l : list Z) : bool :=
 (* Identities are registration ranks (the translator numbers class statements
    in execution order).  A tree is "registered depth first" when every class was
    registered after its base and after the whole subtree of every earlier
-   sibling - e.g. each family completely defined in one module. *)
+   sibling - e.g. each family completely defined in one module.  Informative
+   only: since the repair of from_alias no theorem needs this condition. *)
 Definition registered_depth_first (t : ctree) : bool :=
   increasing (map t_id (preorder t)).
 
